@@ -40,6 +40,78 @@ def permuted_cfg(cfg, perm, nodemap):
     return c
 
 
+ZOO_CATALOGUES = [
+    ('prefix', ['a', 'ab', 'abc', 'abcd', 'b', 'ba', 'bab', 'a_b', 'ab_', 'abcde']),
+    ('digits', ['1', '11', '111', '2', '12', '21', '112', '211', '1111', '10']),
+    ('separators', ['x__y', 'x', 'y (x)', 'x_internal_y', '__', ' (', 'y', 'x__', '__y', 'x (y)']),
+]
+
+
+def zoo_renamings(chk, tier, seed):
+    """ALL asset types (zoo portfolios incl. plant, CHP, scaled, structured and linked assets, order books, coarse / periodic assets): the
+    same portfolio built under adversarial names -- names that are prefixes of each other, digit strings, names containing the
+    separators the library uses -- assigned in both directions (so that every asset once carries the shorter and once the longer name of
+    a pair), and with the asset list reversed.  The optimal value must be the one of the plain build; the reported tables are validated by
+    TLC (Trace_Portfolio: balance and accounting found under the new names)."""
+    from harness import zoo
+    from harness.realise import eao, quiet
+    th = tier == 'thorough'
+    builders = []
+    for z in zoo.ZOO:
+        seen_a, seen_n = [], []
+
+        def rec_a(n, seen=seen_a):
+            if n not in seen:
+                seen.append(n)
+            return n
+
+        def rec_n(n, seen=seen_n):
+            if n not in seen:
+                seen.append(n)
+            return n
+        with zoo.renamed(asset=rec_a, node=rec_n):
+            name, pf, pr, tg = z(seed)
+        with quiet():
+            ref = pf.setup_optim_problem(pr, tg).optimize()
+        if isinstance(ref, str):
+            continue
+        cats = ZOO_CATALOGUES if th else [ZOO_CATALOGUES[(seed + len(builders)) % len(ZOO_CATALOGUES)], ZOO_CATALOGUES[0]]
+        for cname, cat in {c[0]: c for c in cats}.values():
+            for direction in ('up', 'down'):
+                an = sorted(seen_a)
+                nn = sorted(seen_n)
+                amap = dict(zip(an if direction == 'up' else an[::-1], cat))
+                nmap = dict(zip(nn if direction == 'up' else nn[::-1], cat[::-1]))
+                if len(amap) < len(an) or len(nmap) < len(nn):
+                    raise common.MachineryError('catalogue %s too short for portfolio %s' % (cname, name))
+
+                def build(sd, z=z, amap=amap, nmap=nmap, name=name, cname=cname, direction=direction):
+                    with zoo.renamed(asset=lambda n: amap[n], node=lambda n: nmap[n]):
+                        nm, pf2, pr2, tg2 = z(sd)
+                    return '%s/%s/%s' % (nm, cname, direction), pf2, pr2, tg2
+                builders.append((name, cname, direction, build, float(ref.value)))
+    for name, cname, direction, build, refval in builders:
+        for order in ('given', 'reversed'):
+            sel = dict(check='zoo_value_depends_on_names_or_order', portfolio=name, renaming=cname, direction=direction, order=order)
+            chk.cnt['eval_zoo_renamings'] += 1
+            try:
+                _, pf, pr, tg = build(seed)
+                if order == 'reversed':
+                    pf = eao.portfolio.Portfolio(list(reversed(pf.assets)))
+                with quiet():
+                    res = pf.setup_optim_problem(pr, tg).optimize()
+            except Exception as e:
+                chk.violation(dict(sel, check='zoo_setup_raises', error=type(e).__name__), 'renamed portfolio raised %s: %s' % (type(e).__name__, str(e)[:200]), dict(portfolio=name, seed=seed))
+                continue
+            if isinstance(res, str) or abs(float(res.value) - refval) > 1e-6 * max(1., abs(refval)):
+                chk.violation(sel, 'optimum %s of portfolio %s under renaming %s (%s, order %s) differs from %s under the plain names'
+                              % (res if isinstance(res, str) else res.value, name, cname, direction, order, refval), dict(portfolio=name, seed=seed))
+            else:
+                chk.nontrivial(('zoo_names', name, cname, direction, order))
+    # the reported tables under the new names: balance and accounting, decided by TLC
+    common.zoo_portfolio_traces(chk, seeds=[seed], routes=('mono',), zoo_list=[b[3] for b in builders if th or b[2] == 'up'], tag='zoo_renamed', orders=('given',))
+
+
 def run(tier, seed):
     chk = CheckRun('C09', tier, seed)
     th = tier == 'thorough'
@@ -113,6 +185,7 @@ def run(tier, seed):
             chk.nontrivial(('names', tag, cfg['id']))
         # traces under renamings (dispatch / DCF tables are found by the new names)
         common.code_to_spec(chk, cfgs, lambda c: [r for r in reals(c) if not r.struct][:2], tag=tag, chk_fields=(), solvers=('SCIPY',))
+    zoo_renamings(chk, tier, seed)
     chk.assumptions += ['names distinct; catalogue of adversarial renamings (digit-only, prefixes/suffixes of each other, containing the separators "__", "_internal_", " (")']
     return chk.finish(rule='families (composite, order books, structured, mixed discount rates) x permutations of the asset list x 5 adversarial renamings of assets, nodes and the wrapper; '
                            'symmetry of the specification checked by two TLC enumerations per configuration', exhaustive=False)
